@@ -452,10 +452,10 @@ func (f *framing) ruleFetchReturns(rule string, o fetchOpts) {
 					k, isC := constInt(push.(*ssa.Call).Call.Args[1])
 					// the withheld byte equals the pushed constant
 					for _, ft := range dominatingFacts(r.Block()) {
-						if bo, ok := ft.Cond.(*ssa.BinOp); ok && bo.Op == token.EQL && ft.Val {
-							if ld, ok := bo.X.(*ssa.UnOp); ok && ld.Op == token.MUL {
-								if ia, ok := ld.X.(*ssa.IndexAddr); ok && ia.X == sl.X && f.A.Lin(ia.Index).Equal(f.A.LenOf(sl.X).AddConst(-1)) {
-									if k2, ok := constInt(bo.Y); ok && isC && k2 == k {
+						if fx, fy, equal, ok := eqFact(ft); ok && equal {
+							if ld, ok := fx.(*ssa.UnOp); ok && ld.Op == token.MUL {
+								if ia, ok := ld.X.(*ssa.IndexAddr); ok && trivialPhi(ia.X) == trivialPhi(sl.X) && f.A.Lin(ia.Index).Equal(f.A.LenOf(sl.X).AddConst(-1)) {
+									if k2, ok := constInt(fy); ok && isC && k2 == k {
 										okPush = true
 									}
 								}
@@ -774,8 +774,8 @@ func (f *framing) ruleJunkDelimiting(rule string) {
 		if isNilConst(errv) {
 			okStart := false
 			for _, ft := range dominatingFacts(ret.Block()) {
-				if bo, ok := ft.Cond.(*ssa.BinOp); ok && bo.Op == token.EQL && ft.Val && bo.X == r.b {
-					if k, ok := constInt(bo.Y); ok && k == start {
+				if fx, fy, equal, ok := eqFact(ft); ok && equal && fx == r.b {
+					if k, ok := constInt(fy); ok && k == start {
 						okStart = true
 					}
 				}
@@ -846,6 +846,10 @@ func (f *framing) ruleFetcherExits(rule string) {
 			return
 		}
 		kind := ""
+		// a flag that only re-splits paths already separated by recognised conditions
+		if phiBoolSource(ifi.Cond, true, ifi.Block()) != nil || phiBoolSource(ifi.Cond, false, ifi.Block()) != nil {
+			kind = "flag"
+		}
 		if bo, ok := ifi.Cond.(*ssa.BinOp); ok {
 			switch {
 			case isNilConst(bo.X) || isNilConst(bo.Y):
@@ -861,7 +865,7 @@ func (f *framing) ruleFetcherExits(rule string) {
 				if kind == "" && (bo.Op == token.LSS || bo.Op == token.LEQ) {
 					kind = "counter-test"
 				}
-				if ld, ok := bo.X.(*ssa.UnOp); ok && ld.Op == token.MUL && bo.Op == token.EQL {
+				if ld, ok := bo.X.(*ssa.UnOp); ok && ld.Op == token.MUL && (bo.Op == token.EQL || bo.Op == token.NEQ) {
 					if _, isIA := ld.X.(*ssa.IndexAddr); isIA {
 						if k, isC := constInt(bo.Y); isC && k == start {
 							kind = "trailing-start-byte-test"
